@@ -54,6 +54,14 @@ type ExtSpec struct {
 	NoPURLMod int `json:"no_purl_mod,omitempty"`
 	// PurlType is the purl type of the packages ("" = generic).
 	PurlType string `json:"purl_type,omitempty"`
+	// PurlNS is the purl namespace given to two packages out of three (by name hash).
+	PurlNS string `json:"purl_ns,omitempty"`
+	// PurlNameMode: 0 the purl name is the package name; 1 it is "purl-" + the lower-cased
+	// package name; 2 it is the package name cut at the first digit (distinct packages then
+	// share a purl name).
+	PurlNameMode int `json:"purl_name_mode,omitempty"`
+	// PurlQual adds qualifiers and a subpath to the purl.
+	PurlQual bool `json:"purl_qual,omitempty"`
 }
 
 // Hash is the deterministic hash used by all generated behaviour.
@@ -183,7 +191,23 @@ func (e *FSExtractor) ToPURL(p *extractor.Package) *purl.PackageURL {
 	if typ == "" {
 		typ = purl.TypeGeneric
 	}
-	return &purl.PackageURL{Type: typ, Name: p.Name, Version: p.Version}
+	u := &purl.PackageURL{Type: typ, Name: p.Name, Version: p.Version}
+	switch e.Spec.PurlNameMode {
+	case 1:
+		u.Name = "purl-" + strings.ToLower(p.Name)
+	case 2:
+		if i := strings.IndexAny(p.Name, "0123456789"); i > 0 {
+			u.Name = p.Name[:i]
+		}
+	}
+	if e.Spec.PurlNS != "" && Hash("ns|"+p.Name)%3 != 0 {
+		u.Namespace = e.Spec.PurlNS
+	}
+	if e.Spec.PurlQual {
+		u.Qualifiers = purl.QualifiersFromMap(map[string]string{"arch": "x86", "distro": "d-1"})
+		u.Subpath = "sub/path"
+	}
+	return u
 }
 
 // Ecosystem implements extractor.Extractor.
